@@ -432,3 +432,26 @@ def _mon(spec: dict) -> list:
         from vf import judges
         return [judges.c15_monitor]
     return []
+
+
+def selftest_item(item: tuple) -> dict:
+    """Determinism self-test: run one schedule twice (the second time with
+    the first run's (thread, kind) trace as an expectation) and require
+    identical observations.  Any difference is a harness error."""
+    spec, choices = item[0], item[1]
+    if not _JUDGES:
+        _import_judges()
+    r1 = execute(spec, choices)
+    r2 = execute(spec, choices, expect=r1['trace'])
+    for r in (r1, r2):
+        if r['sched_error'] is not None:
+            raise HarnessError(f'selftest {spec["name"]} {choices}: '
+                               f'{r["sched_error"]}')
+    keys = ('trace', 'log', 'steps', 'clients', 'exits', 'errors_sent')
+    for k in keys:
+        if r1[k] != r2[k]:
+            raise HarnessError(
+                f'selftest {spec["name"]} {choices}: {k} differs between two '
+                f'runs of the same schedule')
+    return {'children': children(choices, r1['log_entries'], item[4],
+                                 item[5], None), 'steps': r1['steps']}
